@@ -468,4 +468,169 @@ theorem sep_single (name : String) (m : RegMap.RegMap) (style : Style) (h : m.ad
     simp only [List.mem_append]
     exact Or.inl (Or.inl (List.mem_map_of_mem (f := fun e : String × Nat => e.2) m2))
 
+/-! ### when the lowering raises: exactly on an undeclared lookup -/
+
+mutual
+/-- everything the lowering looks up is there: accelerators declared, setup fields and launch fields in the
+declared dictionaries, launch field names containing "launch" -/
+def Stmt.Declared (ds : List Decl) : Stmt → Prop
+  | .setup acc ps => ∃ d, findDecl ds acc = some d ∧ ∀ p ∈ ps, (lookup d.fields p.1).isSome
+  | .launch acc ps => ∃ d, findDecl ds acc = some d ∧ ∀ p ∈ ps, hasLaunch p.1 = true ∧ (lookup d.launch p.1).isSome
+  | .await acc => (findDecl ds acc).isSome
+  | .op _ _ => True
+  | .ifS _ _ t e => t.Declared ds ∧ e.Declared ds
+  | .forS _ _ b => b.Declared ds
+def Block.Declared (ds : List Decl) : Block → Prop
+  | .nil => True
+  | .cons s r => s.Declared ds ∧ r.Declared ds
+end
+
+theorem lowerSetup_total (d : Decl) : ∀ ps : List (String × Var × Bool), (∀ p ∈ ps, (lookup d.fields p.1).isSome) →
+    ∃ l, lowerSetup d ps = .ok l := by
+  intro ps
+  induction ps with
+  | nil => intro _; exact ⟨[], rfl⟩
+  | cons p ps ih =>
+    intro h
+    obtain ⟨f, v, c⟩ := p
+    obtain ⟨l, hl⟩ := ih (fun q hq => h q (List.mem_cons_of_mem _ hq))
+    have := h (f, v, c) List.mem_cons_self
+    cases ha : lookup d.fields f with
+    | none => simp [ha] at this
+    | some a => exact ⟨_, by simp [lowerSetup, ha, hl]; rfl⟩
+
+theorem lowerLaunch_total (d : Decl) : ∀ ps : List (String × Var),
+    (∀ p ∈ ps, hasLaunch p.1 = true ∧ (lookup d.launch p.1).isSome) → ∃ l, lowerLaunch d ps = .ok l := by
+  intro ps
+  induction ps with
+  | nil => intro _; exact ⟨[], rfl⟩
+  | cons p ps ih =>
+    intro h
+    obtain ⟨f, v⟩ := p
+    obtain ⟨l, hl⟩ := ih (fun q hq => h q (List.mem_cons_of_mem _ hq))
+    obtain ⟨h1, h2⟩ := h (f, v) List.mem_cons_self
+    cases ha : lookup d.launch f with
+    | none => simp [ha] at h2
+    | some a => exact ⟨_, by simp [lowerLaunch, h1, ha, hl]; rfl⟩
+
+mutual
+theorem lowerStmt_total (ds : List Decl) : (st : Stmt) → st.Declared ds → ∃ l, lowerStmt ds st = .ok l
+  | .setup acc ps, h => by
+    obtain ⟨d, hd, hp⟩ := h
+    obtain ⟨l, hl⟩ := lowerSetup_total d ps hp
+    exact ⟨l, by simp [lowerStmt, hd, hl]⟩
+  | .launch acc ps, h => by
+    obtain ⟨d, hd, hp⟩ := h
+    obtain ⟨l, hl⟩ := lowerLaunch_total d ps hp
+    exact ⟨l, by simp [lowerStmt, hd, hl]⟩
+  | .await acc, h => by
+    simp only [Stmt.Declared] at h
+    cases hd : findDecl ds acc with
+    | none => simp [hd] at h
+    | some d => exact ⟨_, by simp [lowerStmt, hd]; rfl⟩
+  | .op tag n, _ => ⟨_, by simp [lowerStmt]; rfl⟩
+  | .ifS tag sl t e, h => by
+    obtain ⟨ht, he⟩ := h
+    obtain ⟨t', ht'⟩ := lowerBlock_total ds t ht
+    obtain ⟨e', he'⟩ := lowerBlock_total ds e he
+    exact ⟨_, by simp [lowerStmt, ht', he']; rfl⟩
+  | .forS tag sl b, h => by
+    obtain ⟨b', hb'⟩ := lowerBlock_total ds b h
+    exact ⟨_, by simp [lowerStmt, hb']; rfl⟩
+theorem lowerBlock_total (ds : List Decl) : (b : Block) → b.Declared ds → ∃ q, lowerBlock ds b = .ok q
+  | .nil, _ => ⟨_, by simp [lowerBlock]; rfl⟩
+  | .cons s r, h => by
+    obtain ⟨hs, hr⟩ := h
+    obtain ⟨l, hl⟩ := lowerStmt_total ds s hs
+    obtain ⟨r', hr'⟩ := lowerBlock_total ds r hr
+    exact ⟨_, by simp [lowerBlock, hl, hr']; rfl⟩
+end
+
+/-- and conversely the lowering only succeeds on such programs (so `Declared` is exactly "does not raise") -/
+theorem lowerSetup_ok_declared (d : Decl) : ∀ (ps : List (String × Var × Bool)) (l : List CStmt),
+    lowerSetup d ps = .ok l → ∀ p ∈ ps, (lookup d.fields p.1).isSome := by
+  intro ps
+  induction ps with
+  | nil => intro l _ p hp; cases hp
+  | cons q ps ih =>
+    intro l h p hp
+    obtain ⟨f, v, c⟩ := q
+    simp only [lowerSetup] at h
+    split at h
+    · cases h
+    · next a ha =>
+      split at h
+      · cases h
+      · next r hr =>
+        rcases List.mem_cons.mp hp with rfl | hp
+        · simp [ha]
+        · exact ih r hr p hp
+
+theorem lowerLaunch_ok_declared (d : Decl) : ∀ (ps : List (String × Var)) (l : List CStmt),
+    lowerLaunch d ps = .ok l → ∀ p ∈ ps, hasLaunch p.1 = true ∧ (lookup d.launch p.1).isSome := by
+  intro ps
+  induction ps with
+  | nil => intro l _ p hp; cases hp
+  | cons q ps ih =>
+    intro l h p hp
+    obtain ⟨f, v⟩ := q
+    simp only [lowerLaunch] at h
+    split at h
+    · next hf =>
+      split at h
+      · cases h
+      · next a ha =>
+        split at h
+        · cases h
+        · next r hr =>
+          rcases List.mem_cons.mp hp with rfl | hp
+          · exact ⟨hf, by simp [ha]⟩
+          · exact ih r hr p hp
+    · cases h
+
+mutual
+theorem lowerStmt_ok_declared (ds : List Decl) : (st : Stmt) → (l : List CStmt) → lowerStmt ds st = .ok l →
+    st.Declared ds
+  | .setup acc ps, l, h => by
+    simp only [lowerStmt] at h
+    split at h
+    · cases h
+    · next d hd => exact ⟨d, hd, lowerSetup_ok_declared d ps l h⟩
+  | .launch acc ps, l, h => by
+    simp only [lowerStmt] at h
+    split at h
+    · cases h
+    · next d hd => exact ⟨d, hd, lowerLaunch_ok_declared d ps l h⟩
+  | .await acc, l, h => by
+    simp only [lowerStmt] at h
+    split at h
+    · cases h
+    · next d hd => simp [Stmt.Declared, hd]
+  | .op tag n, _, _ => trivial
+  | .ifS tag sl t e, l, h => by
+    simp only [lowerStmt] at h
+    split at h
+    · cases h
+    · next e' he =>
+      split at h
+      · cases h
+      · next t' ht => exact ⟨lowerBlock_ok_declared ds t t' ht, lowerBlock_ok_declared ds e e' he⟩
+  | .forS tag sl b, l, h => by
+    simp only [lowerStmt] at h
+    split at h
+    · cases h
+    · next b' hb => exact lowerBlock_ok_declared ds b b' hb
+theorem lowerBlock_ok_declared (ds : List Decl) : (b : Block) → (q : CBlock) → lowerBlock ds b = .ok q →
+    b.Declared ds
+  | .nil, _, _ => trivial
+  | .cons s r, q, h => by
+    simp only [lowerBlock] at h
+    split at h
+    · cases h
+    · next r' hr =>
+      split at h
+      · cases h
+      · next l hl => exact ⟨lowerStmt_ok_declared ds s l hl, lowerBlock_ok_declared ds r r' hr⟩
+end
+
 end SnaxVerif.CsrLower
